@@ -40,6 +40,7 @@ type SolverStats struct {
 	Unknown   int
 	CacheHits int
 	Errors    int
+	Restarts  int
 	WallZ3    time.Duration
 	WallCVC5  time.Duration
 	QZ3       int
@@ -273,6 +274,20 @@ func (s *Solver) Check(as []*Term, wantModel bool) (Result, Model) {
 		fmt.Fprintln(os.Stderr, "solver start failed:", err)
 		s.Stats.Errors++
 		return Unknown, nil
+	}
+	if !useCVC5 && len(p.defined) > 100000 {
+		// a long-lived z3 slows down with the number of definitions it holds: start afresh
+		p.in.Close()
+		p.cmd.Process.Kill()
+		p.cmd.Wait()
+		s.z3, err = s.start("z3")
+		if err != nil || s.z3 == nil {
+			fmt.Fprintln(os.Stderr, "solver restart failed:", err)
+			s.Stats.Errors++
+			return Unknown, nil
+		}
+		p = s.z3
+		s.Stats.Restarts++
 	}
 	t0 := time.Now()
 	p.define(live)
